@@ -114,6 +114,13 @@ def run_refusal_oracle(outcome, tier, seed):
                          b'"n":{"x":"1_000","y":"0x1F","z":"true","w":"inf","v":"1e3"}}')):
         d2 = history.make_doc(rng, fmt if fmt != "toml" else "json", depth=1, root="map")
         firsts.append((fmt, (v0, t0), d2))
+    # TOML's own date-time values of all four kinds, in every position, must survive a TOML -> TOML translation
+    tdt = (b"d = 1979-05-27T07:32:00Z\nl = 1979-05-27T07:32:00\nt = 07:32:00\ndt = 1979-05-27\nmix = [1979-05-27, 2000-01-01]\n"
+           b"in = { at = 1979-05-27T00:32:00-07:00 }\n[sub]\nwhen = 2001-01-01\n[[aot]]\nwhen = 12:30:45.5\n")
+    try:
+        firsts.append(("toml", (gen.read_documents(tdt, "toml")[0], tdt), history.make_doc(rng, "json", depth=1, root="map")))
+    except Exception:
+        pass
     for _ in range(n * 2):
         fmt = rng.choice(["json", "yaml", "msgpack", "toml"])
         d = history.make_doc(rng, fmt, profile="toml" if fmt == "toml" else "common", depth=rng.choice([1, 2, 3, 4]), root="map")
